@@ -72,10 +72,56 @@ class NpShim:
         if type(x).__name__ == "SymFP":
             from . import fp
             return fp.np_cos(x)
-        if is_sym(x):
-            raise Unsupported("numpy.cos on a symbolic value")
+        if isinstance(x, (SymReal, SymInt)):
+            return SymReal(RCOS(SymReal.of(x).t))
         import numpy
         return numpy.cos(x)
+
+    @staticmethod
+    def sin(x):
+        if isinstance(x, (SymReal, SymInt)):
+            return SymReal(RSIN(SymReal.of(x).t))
+        if is_sym(x):
+            raise Unsupported("numpy.sin on %s" % type(x).__name__)
+        import numpy
+        return numpy.sin(x)
+
+    @staticmethod
+    def radians(x):
+        if isinstance(x, (SymReal, SymInt)):
+            return SymReal(RRAD(SymReal.of(x).t))
+        if is_sym(x):
+            raise Unsupported("numpy.radians on %s" % type(x).__name__)
+        import numpy
+        return numpy.radians(x)
+
+    @staticmethod
+    def array(x, *a, **k):
+        def has_sym(v):
+            if isinstance(v, (list, tuple)):
+                return any(has_sym(e) for e in v)
+            return is_sym(v)
+        if has_sym(x):
+            return OpaqueArray("array")
+        import numpy
+        return numpy.array(x, *a, **k)
+
+    @staticmethod
+    def nanargmin(x, *a, **k):
+        if isinstance(x, OpaqueArray):
+            # some index, or ValueError when every entry is NaN: which one is numerics outside the model
+            c = Ctx.cur
+            if bool(SymBool(z3.Bool(c_fresh("allnan")))):
+                raise ValueError("All-NaN slice encountered")
+            i = z3.Int(c_fresh("argmin"))
+            c.assume(z3.And(i >= 0, i <= 2))
+            return SymInt(it=i, lo=0, hi=2)
+        import numpy
+        return numpy.nanargmin(x, *a, **k)
+
+    @property
+    def linalg(self):
+        return _Linalg()
 
     @staticmethod
     def arccos(x):
@@ -110,6 +156,45 @@ class NpShim:
         return abs(a - b) <= atol + rtol * abs(b)
 
 
+RSIN = z3.Function("RSIN", R, R)
+RCOS = z3.Function("RCOS", R, R)
+RRAD = z3.Function("RRAD", R, R)
+_FRESH = [0]
+
+
+def c_fresh(prefix):
+    _FRESH[0] += 1
+    return "__%s_%d" % (prefix, _FRESH[0])
+
+
+class OpaqueArray:
+    """a numpy array holding symbolic numbers: shape and content are not modelled, only that it flows into
+    linalg.norm / nanargmin"""
+
+    def __init__(self, what):
+        self.what = what
+
+    def _op(self, o):
+        return OpaqueArray(self.what)
+
+    __add__ = __radd__ = __sub__ = __rsub__ = __mul__ = __rmul__ = __truediv__ = _op
+
+    def __getitem__(self, k):
+        raise Unsupported("element of an opaque array")
+
+    def __bool__(self):
+        raise Unsupported("truth value of an opaque array")
+
+
+class _Linalg:
+    @staticmethod
+    def norm(x, *a, **k):
+        if isinstance(x, OpaqueArray):
+            return OpaqueArray("norm")
+        import numpy
+        return numpy.linalg.norm(x, *a, **k)
+
+
 MACH2CAS = z3.Function("MACH2CAS", R, R, R)
 MACH2TAS = z3.Function("MACH2TAS", R, R, R)
 CAS2TAS = z3.Function("CAS2TAS", R, R, R)
@@ -119,6 +204,9 @@ def _aero_stub(orig, uf):
     def f(a, b):
         if not (is_sym(a) or is_sym(b)):
             return orig(a, b)
+        for v in (a, b):
+            if isinstance(v, float) and v != v:
+                return float("nan")           # NaN propagates through the conversion
         return SymReal(uf(SymReal.of(a).t, SymReal.of(b).t))
     f.__symx_stub__ = True
     f.__name__ = getattr(orig, "__name__", "aero")
